@@ -74,6 +74,32 @@ func gen(g *common.Gen) {
 		}
 		g.Stat("model")
 		noncrit, crit := m.JunkTypes()
+		// the systematic family of degenerate-but-well-formed values (every field alone / missing, empty
+		// names, empty nested structs, one-element sequences and maps)
+		for j, v := range m.MinimalValues(0) {
+			if !common.Thorough() && j >= 40 {
+				break
+			}
+			r := g.R.Fork()
+			txt := v.Text()
+			g.Op("new %s", m.Key())
+			g.Op("enc %s", txt)
+			g.Op("rt %s -", txt)
+			if m.NoCopy {
+				g.Op("rt %s n", txt)
+			}
+			g.Stat("minimal-value")
+			var pos []Position
+			m.Positions(v, nil, &pos)
+			for k := 0; k < 2 && len(pos) > 0; k++ {
+				p := pos[r.Intn(len(pos))]
+				t, ic := common.Pick(r, noncrit), r.Intn(2)
+				if k == 1 {
+					t, ic = common.Pick(r, crit), 0
+				}
+				g.Op("ins %d %s %s %d %s", ic, txt, selText(p.Sel), p.K, common.Hex(TLV(t, r.Bytes(r.Intn(3)))))
+			}
+		}
 		for i := 0; i < g.N; i++ {
 			r := g.R.Fork()
 			v := m.GenValue(r, 0)
